@@ -231,6 +231,19 @@ def checkCreated (old new : Store) : Option String :=
   else if (recordEntries new).length ≠ (recordEntries old).length + 1 then some "create_not_one_record"
   else none
 
+/-! ### What a governance closure leaves behind -/
+
+/-- The documented effect of `MsgGovCloseMarket` (market.go:1598, x/exchange/spec/03_messages.md
+"GovCloseMarket"): order and commitment creation are disabled, ALL the market's orders are cancelled
+and ALL its commitments released — whatever the flags were before.  `none` = the store shows that
+effect for market `m`; otherwise the clause that is broken. -/
+def checkClosed (s : Store) (m : UInt32) : Option String :=
+  if (orderRecords s).any (fun o => o.market = m) then some "closed_market_has_orders"
+  else if (commitmentRecords s).any (fun c => c.1 = m ∧ c.2.2 ≠ 0) then some "closed_market_has_commitments"
+  else if isMarketAcceptingOrders s m then some "closed_market_accepting_orders"
+  else if isMarketAcceptingCommitments s m then some "closed_market_accepting_commitments"
+  else none
+
 /-! ### Executable invariant check (run on the implementation's raw dump) -/
 
 def familyName : Nat → String
